@@ -61,6 +61,19 @@ CHECKS = {
              'provenance of the result. Prefetch variants run under the seeded thread scheduler.',
         note='Look-ahead allowance is a conservative sum; two simultaneous iterators are not attributed; '
              'schedules sampled.'),
+    'C10': dict(
+        level='exploration', ref='4 (C10)',
+        technique='deterministic simulation with fault injection: history machine against a reference model '
+                  '(index -> first computed value, call counters), memory-pressure fault through the '
+                  'psutil.virtual_memory seam, prefetch accesses under the thread simulator',
+        text='Seeded access histories (index of either sign, key, slice, iteration, items, copies, thread-prefetch '
+             'workers, client mutation) over ds.cache() with a fresh-nonce or deterministic upstream; available '
+             'memory drops to or below the threshold at any step, also inside a prefetch iteration, optionally '
+             'recovering. Every access is judged against the model: frozen values stay frozen and are never '
+             'recomputed, uncached accesses compute exactly once and return what the pipeline produced; eager '
+             'caching is checked as a snapshot.',
+        note='Accesses form a sequence (concurrency only inside one prefetch iteration); after recovery of memory or a '
+             'flip inside a prefetch iteration both cached and uncached behaviour are accepted, wrong values never.'),
     'C12': dict(
         level='exploration', ref='4 (C12)',
         technique='deterministic simulation: seeded / exhaustive interleaving of the next() calls of 1-3 '
